@@ -83,6 +83,12 @@ type BuildOpts struct {
 	// condition reads its whole input stream and decides on the size of the concatenated chunks (maps united key
 	// by key, recursively) — the same table as the value conditions. Workflow branches keep the value form.
 	StreamConds bool
+	// PipeLambdas: every lambda is Stream-native (compose.StreamableLambda) and emits its output through a
+	// schema.Pipe: one chunk, or two when the output {key: {a: .., b: ..}} can be cut below the node's own key
+	// ({key: {a: ..}}, {key: {b: ..}} — they concatenate back to the output). What flows between the nodes is
+	// then a real stream (not an array-backed one) in every calling paradigm; the values the next lambda records
+	// (its concatenated input) and the results are the same as with Invoke-native lambdas.
+	PipeLambdas bool
 }
 
 type Built struct {
@@ -167,6 +173,23 @@ func (b *builder) newLambda(path []uint64) *compose.Lambda {
 	if b.o.Wrap != nil {
 		body = b.o.Wrap(path, body)
 	}
+	if b.o.PipeLambdas {
+		return compose.StreamableLambda(func(ctx context.Context, in M) (*schema.StreamReader[M], error) {
+			out, err := body(ctx, in)
+			if err != nil {
+				return nil, err
+			}
+			chunks := splitOutput(out)
+			// buffered: the producer never waits for a reader (a frontier that is dropped because END was
+			// reached leaves its input streams unread)
+			sr, sw := schema.Pipe[M](len(chunks))
+			for _, c := range chunks {
+				sw.Send(c, nil)
+			}
+			sw.Close()
+			return sr, nil
+		})
+	}
 	return compose.InvokableLambda(func(ctx context.Context, in M) (M, error) { return body(ctx, in) })
 }
 
@@ -186,6 +209,36 @@ func nodeName(k uint64) string {
 		return compose.END
 	}
 	return KeyStr(k)
+}
+
+// splitOutput cuts a lambda output {key: inner} into two chunks below its single key when inner is a map with
+// at least two keys (smallest key first chunk, the rest second); anything else is one chunk.
+func splitOutput(out M) []M {
+	if len(out) != 1 {
+		return []M{out}
+	}
+	for k, v := range out {
+		inner, ok := v.(M)
+		if !ok || len(inner) < 2 {
+			return []M{out}
+		}
+		first := ""
+		for ik := range inner {
+			if first == "" || ik < first {
+				first = ik
+			}
+		}
+		a, b := M{}, M{}
+		for ik, iv := range inner {
+			if ik == first {
+				a[ik] = iv
+			} else {
+				b[ik] = iv
+			}
+		}
+		return []M{{k: a}, {k: b}}
+	}
+	return []M{out}
 }
 
 // streamSize reads a stream of map chunks to its end and returns the size of their concatenation.
